@@ -31,7 +31,7 @@ pub fn c01_exhaustive_count(tier: &str) -> u64 {
 }
 
 /// every checked retrieval entry point, by key and by address
-fn checked_retrievals(rng: &mut Rng, ki: usize, vi: usize, algo: &str, f: (&str, &str), tag: &str, len: u64) -> Vec<Value> {
+fn checked_retrievals(rng: &mut Rng, ki: usize, vi: usize, algo: &str, f: (&str, &str), tag: &str, len: u64, exact: u64) -> Vec<Value> {
     let addr = json!({"val":vi,"algo":algo});
     // tiny buffers only for values that stay cheap to stream (a 1-byte buffer over 1 MiB is a million reads)
     let buf = pick_buf(rng, len);
@@ -42,6 +42,8 @@ fn checked_retrievals(rng: &mut Rng, ki: usize, vi: usize, algo: &str, f: (&str,
         // buffer sizes alternate (sometimes with an empty buffer in between, which reads 0 bytes without being the end)
         json!({"k":"api","op":"reader","addr":addr,"bufs": if rng.chance(1, 3) && len <= 4096 { json!([buf, 0, 3]) } else { json!([buf, if len > 4096 { 4096 } else { 3 }]) },"eof_reads":rng.below(2)}),
         json!({"k":"api","op":"reader","key":ki,"bufs":[4096],"to_end":*rng.pick(&[0u64, 3, 100])}),
+        // exactly the stored length first, then an empty buffer (reads nothing, is not the end), then whatever follows
+        json!({"k":"api","op":"reader","addr":addr,"bufs":[exact.clamp(1, 1 << 20), 0, 64],"eof_reads":rng.below(2)}),
         json!({"k":"api","op":"copy","key":ki,"to":format!("$O/{tag}-ck")}),
         json!({"k":"api","op":"copy","addr":addr,"to":format!("$O/{tag}-ca")}),
         json!({"k":"api","op":"hard_link","key":ki,"to":format!("$O/{tag}-hk")}),
@@ -81,7 +83,7 @@ pub fn gen_c01(tier: &str, r: u64, ex: u64, rng: &mut Rng) -> Value {
         steps.push(w2);
         steps.push(dmg);
         for (i, f) in FLAVS.iter().enumerate() {
-            steps.extend(checked_retrievals(rng, 0, 0, algo, *f, &format!("x{i}"), size));
+            steps.extend(checked_retrievals(rng, 0, 0, algo, *f, &format!("x{i}"), size, size));
         }
         // the undamaged sibling must still read back exactly
         let mut s = json!({"k":"api","op":"read","key":1});
@@ -159,7 +161,7 @@ pub fn gen_c01(tier: &str, r: u64, ex: u64, rng: &mut Rng) -> Value {
     let nf = rng.range(1, 3);
     for i in 0..nf {
         let f = flav(rng);
-        let mut ops = checked_retrievals(rng, 0, 0, algo, f, &format!("s{i}"), maxlen);
+        let mut ops = checked_retrievals(rng, 0, 0, algo, f, &format!("s{i}"), maxlen, len);
         // mid-stream damage: flip a byte of the file between two reads of a Reader
         if rng.chance(1, 3) && len > 16 {
             let mut m = json!({"k":"api","op":"reader","key":1,"bufs":[if maxlen > 4096 { 4096 } else { *rng.pick(&[1u64,7,64]) }],"mid_after":rng.range(1,2),"mid":{"act":"flip","content":c1,"byte":vlen(&vals,1).saturating_sub(1),"bit":1}});
